@@ -368,7 +368,7 @@ func c17PubContent(ti int, alias uint16, qos uint8, pid uint16, decoded bool) *c
 // setters were called again -------------------------------------------------
 
 type c17Op struct {
-	Kind int // 0 AddFilters(new), 1 Filters()[i].SetOptions(o), 2 Filters()[i].SetFilter(s), 3 SetSubscriptionID(v), 4 String()+WellFormed() (read only), 5 WriteTo
+	Kind int // 0 AddFilters(new), 1 Filters()[i].SetOptions(o), 2 Filters()[i].SetFilter(s), 3 SetSubscriptionID(v), 4 String()+WellFormed() (read only), 5 WriteTo, 6 continue with a value copy
 	I    int
 	Opt  byte
 	Str  string
@@ -387,6 +387,8 @@ func (o c17Op) String() string {
 		return fmt.Sprintf("SetSubscriptionID(%d)", o.ID)
 	case 4:
 		return "String()"
+	case 6:
+		return "q := *p; p = &q"
 	}
 	return "WriteTo"
 }
@@ -409,7 +411,8 @@ var c17OpAlphabet = func() []c17Op {
 	for _, id := range []int{1, 268435455, 268435456} {
 		ops = append(ops, c17Op{Kind: 3, ID: id})
 	}
-	return append(ops, c17Op{Kind: 4}, c17Op{Kind: 5})
+	// 6: the program goes on with a value copy of the packet (q := *p)
+	return append(ops, c17Op{Kind: 4}, c17Op{Kind: 5}, c17Op{Kind: 6})
 }()
 
 // c17History applies ops (indices into the alphabet) to a SUBSCRIBE that
@@ -459,6 +462,10 @@ func c17History(init int, path []int) *core.Finding {
 				_ = p.WellFormed()
 			case 5:
 				p.WriteTo(io.Discard)
+			case 6:
+				q := *p
+				keepAlive = append(keepAlive[:0], p)
+				p = &q
 			}
 		})
 		if res.Panic != "" {
